@@ -51,8 +51,64 @@ def rand_seq(rng, n, avoid_first=None, avoid_last=None):
             continue
         return s
 
+# ------------------------------------------------------------------ worlds with overlapping genes
+def add_overlapping_genes(rng, world, p_gene=0.7):
+    """adds 1-2 non-coding genes whose span overlaps an existing gene of the world (same chromosome, either
+    strand, different gene start), so that one genomic position can belong to transcripts of 2-3 genes.
+    The chromosome sequence is untouched (the added genes carry no CDS)."""
+    gid = max(int(g['id'][4:15]) for g in world['genes']) + 100
+    added = []
+    for base in list(world['genes']):
+        if rng.random() > p_gene:
+            continue
+        n = len(world['chroms'][base['chrom']])
+        for _ in range(rng.choice([1, 1, 2])):
+            gid += 1
+            lo = max(1, rng.randint(base['start'] - 60, base['end'] - 25))
+            hi = min(n - 1, lo + rng.randint(50, 260))
+            if lo == base['start']:
+                lo += 1
+            if hi - lo < 30 or min(hi, base['end']) - max(lo, base['start']) < 10:
+                continue
+            nb = rng.choice([1, 2, 3, 3, 4])
+            cuts = sorted(rng.sample(range(lo + 6, hi - 6), min(2 * nb - 2, max(0, hi - lo - 14))))
+            cuts = [c for i, c in enumerate(cuts) if i == 0 or c - cuts[i - 1] >= 3]
+            if len(cuts) % 2:
+                cuts = cuts[:-1]
+            pts = [lo] + cuts + [hi]
+            blocks = [[pts[i], pts[i + 1]] for i in range(0, len(pts), 2)]
+            gene = {'id': 'ENSG%011d.%d' % (gid, rng.randint(1, 9)), 'name': 'OVL%d' % gid, 'chrom': base['chrom'],
+                    'strand': rng.choice([1, -1]), 'biotype': 'lncRNA', 'transcripts': []}
+            seen = set()
+            for ti in range(rng.choice([1, 2, 2])):
+                exons = [list(b) for b in blocks] if ti == 0 else [list(b) for b in blocks if rng.random() < 0.7] or [list(blocks[0])]
+                key = tuple(map(tuple, exons))
+                if key in seen:
+                    continue
+                seen.add(key)
+                gene['transcripts'].append({'id': 'ENST%011d.%d' % (gid * 10 + ti, rng.randint(1, 9)), 'protein_id': None,
+                                            'exons': exons, 'cds': None, 'frame': 0, 'tags': [], 'sec': [], 'utr': False,
+                                            'biotype': 'lncRNA'})
+            gene['start'] = min(t['exons'][0][0] for t in gene['transcripts'])
+            gene['end'] = max(t['exons'][-1][1] for t in gene['transcripts'])
+            added.append(gene)
+    world['genes'] += added
+    return world
+
+def overlapping_groups(world):
+    """[(chrom, lo, hi, [genes])] for every pair/triple of genes whose spans intersect"""
+    out = []
+    gs = world['genes']
+    for i, a in enumerate(gs):
+        for b in gs[i + 1:]:
+            if a['chrom'] == b['chrom']:
+                lo, hi = max(a['start'], b['start']), min(a['end'], b['end'])
+                if lo < hi:
+                    out.append((a['chrom'], lo, hi, [a, b]))
+    return out
+
 # ------------------------------------------------------------------ VEP generation
-def vep_events(rng, world, gene, tx, npos):
+def vep_events(rng, world, gene, tx, npos, only_pts=None):
     """rows for one transcript; each row carries its own ground-truth event (p, q, s) genomic"""
     chrom = world['chroms'][gene['chrom']]
     n = len(chrom)
@@ -72,6 +128,8 @@ def vep_events(rng, world, gene, tx, npos):
         rest = [p for p in pts if p not in keep]
         pts = sorted(keep | set(rng.sample(rest, max(0, npos - len(keep)))))
     pts = sorted(set(pts + inner))
+    if only_pts is not None:
+        pts = sorted(p for p in set(only_pts) if 1 <= p < n - 1)
     rows = []
     def add(kind, p, q, s, a, b, allele, scope=True, force_range=False):
         rows.append({'gene': gene['id'], 'tx': tx['id'], 'loc': loc_str(gene['chrom'], a, b, force_range),
@@ -105,6 +163,22 @@ def vep_events(rng, world, gene, tx, npos):
         if rng.random() < 0.3:
             add('backward', p, p, 'A', p + 1, p, rng.choice(['A', '-', 'ACG']), scope=False)
             add('backward', p, p, 'A', p + 3, p, rng.choice(['A', '-', 'ACG']), scope=False)
+    return rows
+
+def vep_shared_events(rng, world, per_group=5):
+    """one genomic location overlapping two genes: VEP writes one row per (gene, transcript) with the same
+    Location / Allele; every row must be converted in its own gene's coordinates"""
+    rows = []
+    for chrom, lo, hi, genes in overlapping_groups(world):
+        pts = {lo, lo + 1, hi - 2, hi - 1} | {rng.randrange(lo, hi) for _ in range(per_group)}
+        base = vep_events(rng, world, genes[0], genes[0]['transcripts'][0], 0, only_pts=pts)
+        base = [r for r in base if r['kind'] in ('snv', 'del', 'ins', 'sub', 'ins_ei', 'ins_si')]
+        if len(base) > 60:
+            base = rng.sample(base, 60)
+        for r in base:
+            for g in genes:
+                for t in g['transcripts']:
+                    rows.append(dict(r, gene=g['id'], tx=t['id'], shared=True))
     return rows
 
 def vep_model_req(fix, world, gene, tx, rows):
@@ -145,6 +219,10 @@ def vep_declarative(world, row, rec):
     p, q, s = row['ev']
     gseq = G.gene_seq(world, gene)
     st, en, ref, alt = rec['start'], rec['end'], rec['ref'], rec['alt']
+    tg, _ = find_tx(world, rec['attrs'].get('TRANSCRIPT_ID'))
+    if rec['attrs'].get('TRANSCRIPT_ID') != row['tx'] or tg is None or rec['gene'] != tg['id'] or rec['gene'] != row['gene']:
+        return 'CHROM %s / TRANSCRIPT_ID %s are not the gene and transcript of the VEP row (%s, %s)' % (
+            rec['gene'], rec['attrs'].get('TRANSCRIPT_ID'), row['gene'], row['tx'])
     if st < 0 or en > len(gseq) or en - st != len(ref):
         return 'record location [%d,%d) is not a range of the gene of length |REF|' % (st, en)
     if gseq[st:st + len(ref)] != ref:
@@ -195,23 +273,26 @@ def redi_case(rng, world, err_stream=False):
     thr = {'alt': rng.choice([0, 1, 2, 3, 3, 5]), 'fnum': fn, 'fden': fd, 'freq': fn / fd,
            'rna': rng.choice([1, 5, 10, 10, 12]), 'dna': rng.choice([-1, 0, 5, 10, 10])}
     rows = []
+    all_tx = [(g, t) for g in world['genes'] for t in g['transcripts']]
     for gene in world['genes']:
         chrom = world['chroms'][gene['chrom']]
-        txs = gene['transcripts']
         pts = set(range(gene['start'] - (2 if err_stream else 0), gene['start'] + 3))
         pts.update(range(gene['end'] - 3, gene['end'] + (2 if err_stream else 0)))
-        for t in txs:
+        for t in gene['transcripts']:
             for s, e in t['exons']:
                 pts.update((s - 1, s, e - 1, e))
         pts.update(rng.randrange(gene['start'], gene['end']) for _ in range(8))
         pts = [p for p in pts if 0 <= p < len(chrom)]
-        if not err_stream:
-            pts = [p for p in pts if gene['start'] <= p < gene['end']]
         for p in sorted(pts):
+            # transcripts (of ANY gene on this chromosome) whose range contains the site: what AnnotateTable lists
+            inside = [(g, t) for g, t in all_tx if g['chrom'] == gene['chrom'] and tx_span(t)[0] <= p < tx_span(t)[1]]
+            outside = [(g, t) for g, t in all_tx if (g, t) not in inside]
+            if not err_stream and not inside:
+                continue
             ref = chrom[p]
             k = rng.randint(1, 3)
             alts = rng.sample([c for c in 'ACGT' if c != ref], k)
-            total = rng.choice([thr['rna'] - 1, thr['rna'], thr['rna'] + 1, rng.randint(1, 40), 2 * thr['rna'] + 8, 40])
+            total = rng.choice([thr['rna'] - 1, thr['rna'], thr['rna'] + 1, rng.randint(1, 40), 2 * thr['rna'] + 8, 40, 40])
             total = max(1, total)
             counts = dict.fromkeys('ACGT', 0)
             left = total
@@ -223,15 +304,17 @@ def redi_case(rng, world, err_stream=False):
                 counts[a] = c
                 left -= c
             counts[ref] += left
-            g = rng.choice(['-', '-1', str(thr['dna'] - 1), str(thr['dna']), str(thr['dna'] + 1), '30', '30'])
-            entries = []
-            pool = list(txs)
-            rng.shuffle(pool)
-            for t in pool[:rng.randint(1, len(pool))]:
-                entries.append(t['id'] + '-' + rng.choice(['transcript', 'transcript', 'transcript', 'exon', 'CDS']))
-            if err_stream and rng.random() < 0.3 and len(world['genes']) > 1:
-                og = rng.choice([x for x in world['genes'] if x is not gene])
-                entries.append(og['transcripts'][0]['id'] + '-transcript')
+            g = rng.choice(['-', '-1', str(thr['dna'] - 1), str(thr['dna']), str(thr['dna'] + 1), '30', '30', '30'])
+            pool = list(inside)
+            rng.shuffle(pool)                       # any order: genes interleaved
+            pool = pool[:rng.randint(1, len(pool))] if pool else []
+            if len(pool) > 1 and rng.random() < 0.5:
+                pool.sort(key=lambda gt: rng.random() + (0 if gt[0] is gene else 1) * rng.choice([-1, 1]))
+            entries = [t['id'] + '-' + rng.choice(['transcript', 'transcript', 'transcript', 'transcript', 'exon', 'CDS']) for _, t in pool]
+            if err_stream and outside and (not entries or rng.random() < 0.4):
+                entries.insert(rng.randint(0, len(entries)), rng.choice(outside)[1]['id'] + '-transcript')
+            if not entries:
+                continue
             seps = rng.choice([',', '&', '$'])
             txcol = seps.join(entries) + rng.choice(['', '', ',', '&', '$'])
             rows.append({'chrom': gene['chrom'], 'pos': p + 1, 'ref': ref, 'counts': [counts[c] for c in 'ACGT'],
@@ -292,8 +375,17 @@ def redi_declarative(world, rd, row, recs):
             g, t = find_tx(world, ent[0])
             if G.g2tx(g, t, row['pos'] - 1) is not None:
                 for s in valid:
-                    want.append((ent[0], G.g2gene(g, row['pos'] - 1), s[0], s[1]))
-    got = [(r['attrs']['TRANSCRIPT_ID'], r['start'], r['ref'], r['alt']) for r in recs]
+                    want.append((ent[0], g['id'], G.g2gene(g, row['pos'] - 1), s[0], s[1]))
+    got = [(r['attrs']['TRANSCRIPT_ID'], r['gene'], r['start'], r['ref'], r['alt']) for r in recs]
+    # every record by itself: CHROM (gene id), POS and TRANSCRIPT_ID must be mutually consistent with the genomic site
+    for r in recs:
+        tg, tt = find_tx(world, r['attrs'].get('TRANSCRIPT_ID'))
+        if tg is None or r['gene'] != tg['id']:
+            return 'record %s: CHROM %s is not the gene of TRANSCRIPT_ID %s' % (r['id'], r['gene'], r['attrs'].get('TRANSCRIPT_ID')), False
+        if not (tg['start'] <= row['pos'] - 1 < tg['end']) or r['start'] != G.g2gene(tg, row['pos'] - 1) or r['end'] != r['start'] + 1:
+            return 'record %s: POS %d is not the position of %s:%d in gene %s' % (r['id'], r['start'] + 1, row['chrom'], row['pos'], r['gene']), False
+        if r['attrs'].get('GENOMIC_POSITION') != '%s:%d' % (row['chrom'], row['pos']) or r['attrs'].get('STRAND') != str(tg['strand']):
+            return 'record %s: GENOMIC_POSITION/STRAND attributes do not describe the site' % r['id'], False
     if sorted(got) == sorted(want):
         return None, False
     extra = [x for x in got if x not in want]
@@ -301,7 +393,7 @@ def redi_declarative(world, rd, row, recs):
     d10 = False
     if extra and not missing:
         d10 = True
-        for tid, pos, rf, al in extra:
+        for tid, gid_, pos, rf, al in extra:
             g, t = find_tx(world, tid)
             ts, te = tx_span(t)
             # mechanism of D10: the site lies outside the transcript's range (not in an intron) but inside the gene
@@ -409,6 +501,8 @@ def evaluate(ctx, cases, fix, mode):
                 vep_expect.setdefault(ci, {})[ri] = exp
                 got = canon_lib(r['vep_lib'][ri])
                 gene = find_gene(w, row['gene'])
+                if row.get('shared'):
+                    bump('vep_shared_location/%s' % ('accepted' if isinstance(got, dict) else got))
                 bump('vep/%s/%s/%s' % (row['kind'], '+' if gene['strand'] == 1 else '-', 'accepted' if isinstance(got, dict) else got))
                 if isinstance(got, dict):
                     st['nontrivial'].add((ci, ri))
@@ -446,6 +540,10 @@ def evaluate(ctx, cases, fix, mode):
                 exp = redi_expected(w, row, mm)
                 got = canon_redi_lib(r['redi_lib'][ri])
                 bump('redi/%s' % ('error' if isinstance(got, str) else ('emitted' if got else 'none')))
+                ng = len({find_tx(w, e[0])[0]['id'] for e in redi_entries(row) if len(e) == 2 and e[1] == 'transcript' and find_tx(w, e[0])[0]})
+                bump('redi_genes_in_row/%d' % ng)
+                if isinstance(got, list) and len({x['gene'] for x in got}) > 1:
+                    bump('redi_rows_emitting_for_2plus_genes')
                 if isinstance(got, list) and got:
                     st['nontrivial'].add((ci, 'r', ri))
                 reason, d10 = (None, False)
@@ -529,7 +627,9 @@ def gen_cases(ctx):
     cases = []
     for wi in range(n_world):
         w = G.gen_world(rng, small=True, n_chrom=1, max_genes=3, nf_p=0.35)
-        rows = []
+        if wi % 2 == 1:
+            add_overlapping_genes(rng, w)
+        rows = vep_shared_events(rng, w)
         for gene in w['genes']:
             txs = gene['transcripts']
             for tx in (txs if not ctx.quick else rng.sample(txs, min(2, len(txs)))):
